@@ -2,6 +2,7 @@
 readiness and clear semantics through the CircularAllocator obligations of C27)."""
 
 from .common import *
+from . import excl
 from ..pm import pmatch, pat
 from . import C27
 
@@ -15,6 +16,7 @@ def check_fifo_wrapper(ctx):
     comp.require_modelled("C14")
     ex = one_config(comp, "C14")
     w, r = need_body(ex, "write", "C14", comp.site), need_body(ex, "read", "C14", comp.site)
+    excl.exclusive(ctx, "C14", "FIFO", w, r)
     subs = [s for s in ex.of(Submodule)]
     fifo = subs[0].value if subs else None
     o = ex.obj(fifo) if fifo else None
@@ -40,6 +42,7 @@ def check_basic_fifo(ctx):
     comp.require_modelled("C14")
     ex = one_config(comp, "C14")
     w, r, p, c = (need_body(ex, n, "C14", comp.site) for n in ("write", "read", "peek", "clear"))
+    excl.exclusive(ctx, "C14", "BasicFifo", w, r)
     # roles: allocator submodule, memory ports
     alloc = None
     for s in ex.of(Submodule):
@@ -106,6 +109,7 @@ def check(ctx):
     check_fifo_wrapper(ctx)
     check_basic_fifo(ctx)
     C27.check_allocator(ctx, "C14.allocator")
+    C27.check_mod_add(ctx, "C14")
 
 
 MUTANTS = [
